@@ -7,8 +7,12 @@ import (
 	"testing"
 	"time"
 
+	"github.com/NethermindEth/juno/adapters/mempool2p2p"
+	"github.com/NethermindEth/juno/adapters/p2p2mempool"
+	"github.com/NethermindEth/juno/core"
 	"github.com/NethermindEth/juno/mempool"
 
+	"verifharness/internal/chainkit"
 	"verifharness/internal/faultkv"
 	"verifharness/internal/vh"
 )
@@ -398,6 +402,29 @@ func TestMempoolProbes(t *testing.T) {
 			s.closeAll()
 		}
 	}
+	// --- 5. mempool/p2p (not wired into node.go at this commit): what the sender makes of a v1 invoke
+	func() {
+		var id int
+		for i, b := range u.txs {
+			if t, ok := b.Transaction.(*core.InvokeTransaction); ok && t.Version.Is(1) {
+				id = i + 1
+				break
+			}
+		}
+		msg, err := mempool2p2p.AdaptTransaction(u.txs[id-1])
+		if err != nil {
+			obs["gossip-v1-invoke"] = "the sender refuses it: " + err.Error()
+			return
+		}
+		defer func() {
+			if p := recover(); p != nil {
+				obs["gossip-v1-invoke"] = fmt.Sprintf("mempool2p2p sends a v1 invoke as an InvokeV3 message without resource bounds; the RECEIVER's "+
+					"p2p2mempool.AdaptTransaction panics on it (%v) — inside the listener that takes the whole p2p service down", p)
+			}
+		}()
+		_, err = p2p2mempool.AdaptTransaction(ctx, nil, msg, chainkit.Network)
+		obs["gossip-v1-invoke"] = fmt.Sprintf("receiver: %v", err)
+	}()
 	out.Stats["observations"] = obs
 	out.Done(len(in.Shapes), 0)
 }
